@@ -6,18 +6,6 @@ import CrsProofs.Lines
 namespace Crs.Renumber
 open Crs
 
-theorem stripPrefix?_some_iff (p b r : Bytes) : stripPrefix? p b = some r ↔ b = p ++ r := by
-  induction p generalizing b with
-  | nil => simp [stripPrefix?, eq_comm]
-  | cons x p ih =>
-    cases b with
-    | nil => simp [stripPrefix?]
-    | cons y b =>
-      simp only [stripPrefix?]
-      by_cases h : x = y
-      · subst h; simp [ih]
-      · simp [h]; intro e; exact absurd e.symm h
-
 /-- an occurrence of `key` followed by a white-space character -/
 def Occ (key l : Bytes) : Prop := ∃ a d c, l = a ++ key ++ d :: c ∧ isWs d = true
 
